@@ -21,6 +21,19 @@ channel-close edge. -/
 theorem C11_lock_discipline : raceFree accesses :=
   raceFreeG_sound accesses (by decide +kernel)
 
+table_obligation in
+/-- C07 on the extracted table: every location for which the table lists a reader that relies on
+nothing (the `caller:consumer` rows of the `published:` locations — the contents of the messages the
+resources store and hand out by pointer) is frozen: the library has no write into such a message
+outside construction. -/
+theorem C11_published_frozen : ∀ r ∈ accesses, bareReader r → frozenIn accesses r.field :=
+  fun _ hr hb => frozen_of_bareReader C11_lock_discipline hr hb
+
+-- …and there are such rows
+table_obligation in
+set_option maxRecDepth 100000 in
+example : (accesses.any bareReaderB) = true := by decide +kernel
+
 -- The table is not trivially race free: it contains conflicting pairs of live rows in different functions.
 table_obligation in
 set_option maxRecDepth 100000 in
